@@ -20,6 +20,7 @@ func init() {
 		NotDecided: "correctness of the binary search and of the offset arithmetic, i.e. that the bytes returned are the blob's bytes for every history; FUSE kernel behaviour.",
 		Rules: []rule{
 			{"C09.chunks-verified", "every chunk a store hands to the reader was verified against the requested id (shared with C03)", 16, func(c *Ctx) { c03CtorVerifies(c); c03Backends(c) }},
+			{"C09.seek-boundaries", "chunk lookup and range ends split at the right offsets (partition points of the comparisons in findOffset, Seek and the copy-on-read indexRange)", 9, c09SeekBoundaries},
 			{"C09.empty-index", "Index.Chunks is indexed only behind a non-empty check", 2, c09EmptyIndex},
 			{"C09.errors-surface", "store and seek errors end a read with an error / EIO", 4, c09ErrorsSurface},
 			{"C09.handle-lock", "the FUSE handle's cursor is used only under the exclusive handle lock", 2, c09HandleLock},
@@ -349,4 +350,26 @@ func c09Cursor(c *Ctx) {
 			c.bad("IndexPos.loadChunk:stores", lc.Pos(), "loadChunk does not store the chunk data")
 		}
 	}
+}
+
+// c09SeekBoundaries (E-BOUND): the comparisons that decide which chunk holds a position.
+func c09SeekBoundaries(c *Ctx) {
+	c.dumpPartitions()
+	if fn := c.mustFn("IndexPos.findOffset"); fn != nil {
+		c.boundaryRule("IndexPos.findOffset", withClosures(fn), []boundarySpec{
+			{"within-current-lower", map[string]int{"IndexPos.curChunkOffset": 1, "IndexPos.pos": -1, "param#1": 1}, -1, 1, "the new position is before the current chunk iff curChunkOffset+delta < 0"},
+			{"within-current-upper", map[string]int{"IndexPos.curChunkOffset": 1, "IndexPos.pos": -1, "[i]IndexChunk.Size": -1, "param#1": 1}, -1, 1, "the new position is inside the current chunk iff curChunkOffset+delta < Size"},
+			{"bisect", map[string]int{"[i]IndexChunk.Size": 1, "[i]IndexChunk.Start": 1, "param#1": -1}, 0, 1, "chunk i is the first whose end lies beyond the position: newPos < Start+Size"},
+			{"before-found-chunk", map[string]int{"IndexChunk.Start": 1, "param#1": -1}, 0, 1, "error iff newPos < Start of the chunk found"},
+			{"after-found-chunk", map[string]int{"IndexChunk.Size": 1, "IndexChunk.Start": 1, "param#1": -1}, -1, 1, "error iff newPos > Start+Size of the chunk found (the end position itself is legal: EOF)"},
+		})
+	}
+	if fn := c.mustFn("IndexPos.Seek"); fn != nil {
+		newPos := "phi([1*IndexPos.Length 1*param#1]+0|[1*IndexPos.pos 1*param#1]+0|[1*param#1]+0)"
+		c.boundaryRule("IndexPos.Seek", withClosures(fn), []boundarySpec{
+			{"negative", map[string]int{newPos: 1}, -1, 1, "newPos (offset | pos+offset | Length+offset by whence) is rejected iff < 0"},
+			{"past-end", map[string]int{"IndexPos.Length": 1, newPos: -1}, -1, 1, "EOF iff newPos > Length"},
+		})
+	}
+	c10RangeBoundaries(c)
 }
